@@ -494,7 +494,7 @@ def pointwise(ctx, bdir):
     if rc != 0:
         vivo_abort = (err or "").strip().splitlines()[-1:] or ["?"]
         open(vp + ".stderr", "w").write(err or "")
-    obs = vlib.read_ndjson(tp) + vlib.read_ndjson(vp)
+    obs = [o for o in vlib.read_ndjson(tp) + vlib.read_ndjson(vp) if "k" in o]      # (a crash leaves a truncated last line; it is reported below)
     # negative control: corrupted copies of real snapshots must be rejected
     bad = corrupted_snapshots([o for o in obs if o.get("k") == "vivo"])
     allp = ctx.path("obs_all.ndjson")
@@ -508,7 +508,8 @@ def pointwise(ctx, bdir):
         rej[int(m.group(1))] = sorted(x.strip().strip('"') for x in m.group(2).split(","))
     nreal = len(obs)
     missed = [i for i in range(nreal + 1, nreal + len(bad) + 1) if i not in rej]
-    if missed or not bad:
+    nok = len([o for o in obs if o.get("k") == "vivo" and o.get("r") == "Ok"])
+    if missed or (not bad and nok >= 8):
         raise Broken(f"pointwise negative control: corrupted snapshots accepted: {missed} (of {len(bad)})")
     ctx.evaluations += nreal
     counts = collections.Counter(o.get("k") for o in obs)
@@ -614,4 +615,9 @@ def replay(ctx, path):
     ok2, maxl2, r2 = vlib.validate_trace_file(ctx, mod, cfg, tr, tag="replay_rerun")
     if not ok2:
         rr = vlib.read_ndjson(tr)
-        ctx.violation("replay " + describe(comp, {"records": rr, "index": maxl2 - 1, "inv": r2.violated}), tr)
+        x = {"records": rr, "index": maxl2 - 1, "inv": r2.violated}
+        key = classify_stack(x)[0] if comp == "stack" else None
+        if key and key in ctx.known:
+            ctx.known_finding(key, ctx.known[key])
+        else:
+            ctx.violation("replay " + describe(comp, x), tr)
